@@ -15,7 +15,7 @@ import random
 from harness import absval, core, repo
 from harness.repo import Cell, Context, CellTranslator
 
-TITLES3 = ['Data', 'My Sheet', 'a-b.c']
+TITLES3 = ['Data', 'My Sheet', "It's 2"]
 FCOL = 100          # formulas of the far workbook live in this column (no grid column is near it)
 FROW = 200
 
@@ -281,7 +281,7 @@ def unknown_titles(run):
 
 
 # ---------------------------------------------------------------- direction B
-POOL = [('Data', False), ('S1', False), ('Лист1', False), ('My Sheet', True), ('a-b.c', True), ('2024', True), ('Q&A (x)', True), ('sheet_2', False)]
+POOL = [('Data', False), ('S1', False), ('Лист1', False), ('My Sheet', True), ('a-b.c', True), ("O'Brien", True), ('2024', True), ('Q&A (x)', True), ('sheet_2', False)]
 
 
 def rand_ref(rng, titles):
@@ -306,7 +306,8 @@ def rand_ref(rng, titles):
     t, q = titles[pre - 1]
     if rng.random() < 0.08:
         t, q = rng.choice([('Nope', False), ('No Such', True)])
-    return (f"'{t}'!" if (q or rng.random() < 0.3) else f'{t}!') + body
+    tq = t.replace("'", "''")            # inside quotes an apostrophe is written twice
+    return (f"'{tq}'!" if (q or rng.random() < 0.3) else f'{t}!') + body
 
 
 def _trace_job(seeds):
@@ -448,8 +449,8 @@ def public_path(run):
             for c in range(1, 5):
                 maps[s - 1][(c - 1, r - 1)] = encode(s, c, r) % 1_000_000 + s * 1_000_000     # openpyxl keeps ints < 2^53; keep them small anyway
     val = lambda s, c, r: encode(s, c, r) % 1_000_000 + s * 1_000_000   # noqa
-    forms = [("=B2", 1, val(1, 2, 2)), ("=$C$3", 1, val(1, 3, 3)), ("='My Sheet'!B2", 1, val(2, 2, 2)), ("=Data!C1", 2, val(1, 3, 1)), ("='a-b.c'!$A4", 1, val(3, 1, 4)),
-             ("=INDEX('My Sheet'!A1:C2,2,3)", 3, val(2, 3, 2)), ("=INDEX(A:B,3,2)", 2, val(2, 2, 3)), ("=SUM('a-b.c'!A1:A2)", 1, val(3, 1, 1) + val(3, 1, 2)),
+    forms = [("=B2", 1, val(1, 2, 2)), ("=$C$3", 1, val(1, 3, 3)), ("='My Sheet'!B2", 1, val(2, 2, 2)), ("=Data!C1", 2, val(1, 3, 1)), ("='It''s 2'!$A4", 1, val(3, 1, 4)),
+             ("=INDEX('My Sheet'!A1:C2,2,3)", 3, val(2, 3, 2)), ("=INDEX(A:B,3,2)", 2, val(2, 2, 3)), ("=SUM('It''s 2'!A1:A2)", 1, val(3, 1, 1) + val(3, 1, 2)),
              ("=INDEX('Data'!A:C,2,3)", 3, val(1, 3, 2))]
     for k, (f, own, _) in enumerate(forms):
         maps[own - 1][(6, k)] = f
@@ -581,7 +582,7 @@ def check(run):
                 'column, rectangle and whole-column areas x own sheet), printed, parsed back and denoted by the specification; each read through =ref, '
                 'INDEX at every position, SUM, COUNT, SUMIFS, VLOOKUP/MATCH positions on a workbook whose cells encode their coordinates (neighbours planted '
                 'too); unknown titles must be rejected; random reference texts over random title sets judged by Trace_C02. Non-trivial = an area or a prefixed reference.')
-    run.assumptions += ['titles containing a quote character and lower-case column letters are out of scope', 'the in-memory workbook has the structure Excel.parse delivers; a sample goes through a real xlsx file']
+    run.assumptions += ['lower-case column letters are out of scope', 'the in-memory workbook has the structure Excel.parse delivers; a sample goes through a real xlsx file']
     gen(run)
     unknown_titles(run)
     reordered(run)
